@@ -1,7 +1,226 @@
-//! C05 driver (stub: not built yet).
-use crate::trace::Args;
+//! C05 driver: factor() with an abort predicate that flips at a chosen poll index.
+//!
+//! The predicate is `polls.fetch_add(1) >= k`.  For each (input, selector, threads) a dry run
+//! (k = infinity) counts the N polls of an undisturbed run and where the stages begin; then k
+//! ranges over 0..=N (all of them when N <= 64, else 0,1,2, stage boundaries +-1, 32 evenly
+//! spaced values, N-1, N).  One trace line per run (`op:"abort_run"`) with the polls, stage
+//! starts and unit starts in log order (compact integer form) and the value returned.
+//! Nothing is judged here: AbortTrace.tla decides.
 
-pub fn run(_args: &Args) -> i32 {
-    eprintln!("driver c05 not built yet");
-    2
+use std::cell::Cell;
+use std::sync::atomic::{AtomicUsize, Ordering};
+use std::sync::Arc;
+
+use serde_json::{json, Value};
+
+use yamaquasi::{Preferences, Verbosity};
+
+use super::c04::{algo_of, install_global_panic_hook, install_pert, make_input, outcome_fields, run_factor, st_code, Pert, RunOut, PROGRESS};
+use crate::gen::Pool;
+use crate::trace::*;
+
+thread_local! {
+    // (run generation, number of true polls logged by this thread in that run)
+    static TRUE_LOGGED: Cell<(usize, u32)> = Cell::new((0, 0));
+}
+static RUN_GEN: AtomicUsize = AtomicUsize::new(0);
+
+fn abort_at(k: usize, polls: Arc<AtomicUsize>, gen: usize) -> Box<dyn Fn() -> bool + Sync> {
+    Box::new(move || {
+        let idx = polls.fetch_add(1, Ordering::SeqCst);
+        let res = idx >= k;
+        PROGRESS.fetch_add(1, Ordering::Relaxed);
+        // every false poll is logged; of the true ones the first 3 of each thread (a parallel MPQS
+        // loop polls once per remaining block, 100 000 times)
+        let log = !res || TRUE_LOGGED.with(|c| {
+            let (g, n) = c.get();
+            let n = if g == gen { n } else { 0 };
+            c.set((gen, n + 1));
+            n < 3
+        });
+        if log {
+            yamaquasi::verif::ev(|| format!("\"op\":\"poll\",\"idx\":{},\"res\":{}", idx, res));
+        }
+        res
+    })
+}
+
+/// [code, tid, a, b]: 1 stage start (a = stage code 1 siqs 2 mpqs 3 qs 4 ecm)
+///                    6 poll (a = index, b = 1 if it returned true) -- c = 10*stage + site of the loop it belongs to (0: lib.rs)
+///                    7 unit start (a = stage code)   26 call   27 returned
+fn compact5(events: &[Value]) -> (Vec<Value>, usize, usize) {
+    let mut out = vec![];
+    let mut pending: std::collections::HashMap<i64, i64> = Default::default();
+    let (mut nunits, mut dropped) = (0, 0);
+    for e in events {
+        let tid = e["tid"].as_i64().unwrap_or(0);
+        let st = st_code(e["st"].as_str().unwrap_or(""));
+        match e["op"].as_str().unwrap_or("") {
+            "stage" => out.push(json!([1, tid, st, 0, 0])),
+            "pre_poll" => {
+                let site = match e["site"].as_str().unwrap_or("") { "par" => 1, "seq" => 2, _ => 3 };
+                pending.insert(tid, st * 10 + site);
+            }
+            "task_skip" | "loop_exit" | "sieve_ret" | "unit_start" => {
+                pending.remove(&tid);
+                if e["op"] == "unit_start" {
+                    nunits += 1;
+                    out.push(json!([7, tid, st, 0, 0]));
+                }
+            }
+            "poll" => {
+                let site = pending.remove(&tid).unwrap_or(0);
+                out.push(json!([6, tid, e["idx"].as_i64().unwrap_or(0), e["res"].as_bool().unwrap_or(false) as i64, site]));
+            }
+            "call" => out.push(json!([26, tid, 0, 0, 0])),
+            "returned" => out.push(json!([27, tid, 0, 0, 0])),
+            _ => dropped += 1,
+        }
+    }
+    (out, nunits, dropped)
+}
+
+fn one_run(inp: &super::c04::Input, sel: &str, threads: Option<usize>, k: usize, idle_s: f64) -> (RunOut, usize) {
+    let polls = Arc::new(AtomicUsize::new(0));
+    let gen = RUN_GEN.fetch_add(1, Ordering::SeqCst) + 1;
+    let p2 = polls.clone();
+    install_pert(&Pert { kind: "none".into(), seed: 0 });
+    let r = run_factor(inp.n, algo_of(sel), move || {
+        let mut prefs = Preferences::default();
+        prefs.verbosity = Verbosity::Silent;
+        prefs.threads = threads;
+        prefs.should_abort = Some(abort_at(k, p2, gen));
+        prefs
+    }, idle_s);
+    (r, polls.load(Ordering::SeqCst))
+}
+
+pub fn run(args: &Args) -> i32 {
+    install_global_panic_hook();
+    let seed = arg_u64(args, "seed", 1);
+    let tier = arg_str(args, "tier", "quick").to_string();
+    let thorough = tier == "thorough";
+    let shard = arg_u64(args, "shard", 0) as usize;
+    let nshards = arg_u64(args, "nshards", 1) as usize;
+    let only = args.get("only").cloned();
+    let idle_s = arg_u64(args, "idle", 60) as f64;
+    let mut out = Out::create(arg_str(args, "out", "c05.ndjson"));
+    let mut pool = Pool::new(seed ^ 0xc05);
+
+    let mut shapes: Vec<(&str, Vec<u32>)> = vec![
+        ("b64", vec![32, 32]),
+        ("b70", vec![35, 35]),
+        ("b76", vec![38, 38]),
+        ("b82", vec![41, 41]),
+        ("b88", vec![44, 44]),
+        ("b96", vec![48, 48]),
+        ("b104", vec![52, 52]),
+        ("b110", vec![55, 55]),
+        ("t90", vec![30, 30, 30]),
+        ("t108", vec![36, 36, 36]),
+        ("u100", vec![30, 70]),
+        ("q104", vec![26, 26, 26, 26]),
+    ];
+    if thorough {
+        shapes.extend(vec![("b120", vec![60, 60]), ("b130", vec![65, 65]), ("t130", vec![40, 44, 46]), ("b140", vec![70, 70]),
+                           ("u150", vec![40, 110]), ("b160", vec![80, 80])]);
+    }
+    let selectors = ["Auto", "Siqs", "Mpqs", "Qs", "Ecm"];
+    let kmax_all = if thorough { 512 } else { 64 };
+    let spaced = if thorough { 64 } else { 32 };
+    let (mut work, mut work_ecm) = (0usize, 0usize);
+    let mut stop = false;
+    // the Ecm selector keeps building prime tables for later ecm() levels after an abort (about 4 s
+    // per aborted run): fewer inputs and flip points for it in the quick tier
+    let ecm_shapes = ["b64", "b82", "t90", "u100", "b120", "t130"];
+    for (name, bits) in shapes.iter() {
+        let inp = make_input(&mut pool, &format!("{}-s{}", name, seed), bits);
+        for sel in selectors {
+            if sel == "Qs" && inp.n.bits() > 100 {
+                continue; // the plain QS needs seconds per run above 100 bits
+            }
+            if sel == "Ecm" && !ecm_shapes.contains(name) {
+                continue;
+            }
+            for threads in [None, Some(4usize)] {
+                // heavy (Ecm) and light groups are dealt round-robin separately
+                let mine = if sel == "Ecm" {
+                    work_ecm += 1;
+                    work_ecm % nshards == shard
+                } else {
+                    work += 1;
+                    (work + nshards / 2) % nshards == shard
+                };
+                if !mine || stop {
+                    continue;
+                }
+                let tname = threads.map(|t| t.to_string()).unwrap_or("none".into());
+                let group = format!("{}/{}/t{}", inp.id, sel, tname);
+                if let Some(o) = &only {
+                    if !o.starts_with(&group) {
+                        continue;
+                    }
+                }
+                // dry run
+                let (dry, n_polls) = one_run(&inp, sel, threads, usize::MAX, idle_s);
+                let (dev, _, _) = compact5(&dry.events);
+                // stage boundaries: poll indices at which the loop of the poll changes
+                let mut ks: Vec<usize> = vec![];
+                if sel == "Ecm" && !thorough {
+                    ks.extend([0, 1, 2, n_polls / 2, n_polls.saturating_sub(1), n_polls]);
+                } else if n_polls <= kmax_all {
+                    ks.extend(0..=n_polls);
+                } else {
+                    ks.extend([0, 1, 2, n_polls - 1, n_polls]);
+                    let mut last = -1;
+                    for e in &dev {
+                        if e[0] == 6 {
+                            let site = e[4].as_i64().unwrap() / 10;
+                            let idx = e[2].as_i64().unwrap() as usize;
+                            if site != last {
+                                ks.extend([idx.saturating_sub(1), idx, idx + 1]);
+                                last = site;
+                            }
+                        }
+                    }
+                    for j in 0..spaced {
+                        ks.push(j * n_polls / spaced);
+                    }
+                }
+                ks.sort();
+                ks.dedup();
+                let mut runs: Vec<(i64, RunOut, usize)> = vec![(-1, dry, n_polls)];
+                for &k in &ks {
+                    if let Some(o) = &only {
+                        if *o != format!("{}/k{}", group, k) {
+                            continue;
+                        }
+                    }
+                    let (r, np) = one_run(&inp, sel, threads, k, idle_s);
+                    let hung = r.hung;
+                    runs.push((k as i64, r, np));
+                    if hung {
+                        stop = true;
+                        break;
+                    }
+                }
+                for (k, r, np) in runs {
+                    let (evs, nunits, _) = compact5(&r.events);
+                    let mut e = json!({
+                        "op": "abort_run", "case": format!("{}/k{}", group, k), "group": group, "alg": sel,
+                        "threads": threads.map(|t| t as i64).unwrap_or(0), "k": k, "dry_polls": n_polls, "polls": np,
+                        "units": nunits, "raw_events": r.events.len(), "wall_ms": (r.wall_ms * 10.0).round() / 10.0,
+                        "bits": inp.n.bits(), "n": dn(&inp.n), "n_dec": inp.n.to_string(), "evs": evs,
+                    });
+                    let of = outcome_fields(&r.outcome);
+                    for (kk, v) in of.as_object().unwrap() {
+                        e[kk] = v.clone();
+                    }
+                    out.ev(e);
+                }
+            }
+        }
+    }
+    out.finish();
+    0
 }
